@@ -647,6 +647,17 @@ func (s *c17Sess) Op(line string) string {
 			_ = os.WriteFile(out, junk, 0o644)
 			s.c.R.Count("export over an existing larger file", 1)
 		}
+		// every third export finds the intermediate CSV of an earlier, longer export that did not finish
+		// (<TempDir>/headers.csv is only removed by a successful export)
+		if c17NExports%3 == 0 {
+			var sb strings.Builder
+			sb.WriteString(c17HeaderLine + "\n")
+			for i := 0; i < 4000; i++ {
+				fmt.Fprintf(&sb, "%d,%064x,%d,486604799,1231006505\n", 1+i%3, i*7919+13, 2083236893+i)
+			}
+			_ = os.WriteFile(filepath.Join(os.TempDir(), "headers.csv"), []byte(sb.String()), 0o644)
+			s.c.R.Count("export with a left-over longer <TempDir>/headers.csv", 1)
+		}
 		if err := c17Export(s.src.file, out); err != nil {
 			return "error:export:" + err.Error()
 		}
